@@ -23,8 +23,9 @@ RULE = (
     "non-trivial = every edited case; distinct = sha256(root, edited JSON)"
 )
 
-OUT_INT = [INT_MIN - 1, INT_MAX + 1, 2**40, -(2**40), 2**63]
-OUT_UINT = [-1, UINT_MAX + 1, 2**40, -(2**31)]
+# JSON numbers: the same out-of-range quantities also as they arrive when the sender wrote them with a fraction or exponent
+OUT_INT = [INT_MIN - 1, INT_MAX + 1, 2**40, -(2**40), 2**63, float(INT_MAX + 1), float(INT_MIN - 1), 1e12]
+OUT_UINT = [-1, UINT_MAX + 1, 2**40, -(2**31), -1.0, float(UINT_MAX + 1), 1e12]
 
 
 def null_only_union(sub, occ: str) -> bool:
@@ -64,6 +65,7 @@ def replacement(sub, p: dict, edit: str, sel: int) -> Any:
         else:
             pool = [max(vals) + 1, 0, max(vals) + 1000, UINT_MAX, min(vals) - 1 if min(vals) > 0 else max(vals) + 2]
             pool = [x for x in dict.fromkeys(pool) if x not in vals and x >= 0]
+            pool += [float(max(vals) + 1), float(max(vals) + 7), max(vals) + 0.5]   # JSON numbers written with a fraction / exponent
         return pool[(sel // 7) % len(pool)]
     if edit == "literal-different":
         v = t["value"]
